@@ -1534,17 +1534,14 @@ func resolveVarRec(computed map[string]pr.RawTokens, token Token, resolving map[
 	if utils.AsciiLower(fn.Name) != "var" {
 		arguments := []Token{}
 		for _, argument := range fn.Arguments {
-			if fna, isFunction := argument.(pa.FunctionBlock); isFunction && utils.AsciiLower(fna.Name) == "var" {
+			// var() itself, or a function holding one at any depth
+			if validation.HasVar(argument) {
 				arguments = append(arguments, resolveVarRec(computed, argument, resolving, cyclic)...)
 			} else {
 				arguments = append(arguments, argument)
 			}
 		}
-		token = pa.NewFunctionBlock(token.Pos(), fn.Name, arguments)
-		if resolved := resolveVarRec(computed, token, resolving, cyclic); len(resolved) != 0 {
-			return resolved
-		}
-		return []Token{token}
+		return []Token{pa.NewFunctionBlock(token.Pos(), fn.Name, arguments)}
 	}
 
 	_, args := pa.ParseFunction(token)
